@@ -123,10 +123,10 @@ PROPS = {
     },
     "C03": {
         "quick_runs": 60000, "thorough_runs": 1500000, "seed": 3000001, "chunk": 4096,
-        "rule": "C03 programs: one of 21 pipeline shapes without scheduler (then, let_value (also with a throwing callable), let_error (also "
-                "returning a leaf sender), when_all 2/3 arms and nested, when_all_vector, split with 1-3 consumers, ensure_started (also dropped), "
+        "rule": "C03 programs: one of 24 pipeline shapes without scheduler (then, let_value (also with a throwing callable, also with a successor that keeps the reference to the stored value), let_error (also "
+                "returning a leaf sender, also with a successor that keeps the reference to the stored error), when_all 2/3 arms and nested, when_all_vector, split with 1-3 consumers, ensure_started (also dropped), "
                 "split(ensure_started), ensure_started(split), drop_value, split_tuple, drop_operation_state, require_started, "
-                "unique_any_sender, any_sender copies, unpack, when_all over split copies) or 10 shapes on a 1-4 worker runtime "
+                "unique_any_sender, any_sender copies, unpack, when_all over split copies, drop_operation_state after storing predecessors) or 13 shapes on a 1-4 worker runtime "
                 "(schedule, continues_on, transfer_just, when_all/split/ensure_started over scheduled work); every leaf draws its channel "
                 "(value/error/stopped), its timing (inline in start / later from a completer thread) and payload; callables "
                 "throw at random; consumers start from 1-3 threads after drawn delays via connect/start, sync_wait or start_detached.",
@@ -168,16 +168,16 @@ PROPS = {
     "C09": {
         "quick_runs": 24000, "thorough_runs": 400000, "seed": 9000001,
         "rule": "C09 programs: latch (count 0-8, count_down(n)/arrive_and_wait/wait/try_wait, late waiters), barrier (1-9 "
-                "participants incl. more than workers, 1-5 phases, arrive+wait(token)/arrive_and_wait/arrive_and_drop, counting "
+                "participants incl. more than workers, 1-5 phases - one run in six: 2-3 participants reusing one barrier for 130-300 phases -, arrive+wait(token)/arrive_and_wait/arrive_and_drop, counting "
                 "completion functor), event (set/wait), call_once (2-6 callers, first k attempts throw); tasks and OS threads.",
-        "required_probes": ["latch.wait", "latch.arrive_and_wait", "barrier.drop", "barrier.arrive_then_wait", "event.wait", "once.throw", "once.thrower_gave_up"],
+        "required_probes": ["latch.wait", "latch.arrive_and_wait", "barrier.drop", "barrier.arrive_then_wait", "event.wait", "once.throw", "once.thrower_gave_up", "barrier.more_than_128_phases"],
     },
     "C08": {
         "quick_runs": 24000, "thorough_runs": 400000, "seed": 8000001,
         "kf_subs": {"kf_timed_os": 48},
         "rule": "C08 programs: 2-6 parties (pika tasks / OS threads) x release(n)/acquire/try_acquire/try_acquire_for/until "
                 "on counting_semaphore, hold-sections on binary_semaphore, a sole timed acquirer racing one release, and "
-                "sliding_semaphore wait/try_wait/signal.",
-        "required_probes": ["timed_acquire.true", "release_before_deadline"],
+                "sliding_semaphore wait/try_wait/signal (max_difference 1-4, one run in five: INT64_MAX or INT64_MAX-100 with upper limits beyond it).",
+        "required_probes": ["timed_acquire.true", "release_before_deadline", "sliding.huge_window"],
     },
 }
